@@ -265,7 +265,8 @@ func lex(src string) ([]token, string) {
 			case strings.IndexByte("|&=!<>+-*/%.,:()[]{}", c) >= 0:
 				op = string(c)
 			case strings.HasPrefix(src[i:], "×"):
-				add(token{k: tOp, s: "*"})
+				// multiplication only: never a wildcard
+				add(token{k: tOp, s: "×"})
 				i += len("×")
 				continue
 			case strings.HasPrefix(src[i:], "÷"):
@@ -530,13 +531,17 @@ func (p *parser) expr(min int) Expr {
 		if t.k != tOp {
 			break
 		}
-		pr := Prec(t.s)
+		op := t.s
+		if op == "×" {
+			op = "*"
+		}
+		pr := Prec(op)
 		if pr == 0 || pr <= min {
 			break
 		}
 		p.next()
 		right := p.expr(pr)
-		left = &Binary{Op: t.s, L: left, R: right}
+		left = &Binary{Op: op, L: left, R: right}
 	}
 	return left
 }
@@ -551,7 +556,9 @@ func (p *parser) unary() Expr {
 			return &Unary{Op: t.s, X: p.unary()}
 		}
 		if nt.k == tIdent && nt.s == "let" {
-			p.doubt("unary-before-let")
+			// how far a let-expression under a unary operator extends is not
+			// pinned; neither accept nor reject
+			panic(undetErr{"unary-before-let"})
 		}
 		c := p.chainExpr(true)
 		return &Unary{Op: t.s, X: c}
@@ -1059,4 +1066,25 @@ func dumpHash(b *strings.Builder, keys []string, items []Expr) {
 		dump(b, x)
 	}
 	b.WriteByte('}')
+}
+
+// TokenSpans splits src into the source text of its tokens (white space
+// between tokens dropped). ok=false if the reference lexer rejects src.
+func TokenSpans(src string) (spans []string, ok bool) {
+	defer func() {
+		if r := recover(); r != nil {
+			spans, ok = nil, false
+		}
+	}()
+	if !utf8.ValidString(src) {
+		return nil, false
+	}
+	toks, _ := lex(src)
+	for i := 0; i+1 < len(toks); i++ {
+		end := toks[i+1].pos
+		s := src[toks[i].pos:end]
+		s = strings.TrimRight(s, " \t\r\n")
+		spans = append(spans, s)
+	}
+	return spans, true
 }
